@@ -19,15 +19,15 @@ READY = True
 LEVEL = "exploration"
 TECHNIQUE = ("runtime monitoring: histories of Diagnostic instantiation / register_function / diagnose_network calls in one "
              "process, every call compared with the same call executed in a pristine process; input tables snapshot-compared")
-CASES = {"quick": 32, "thorough": 1500}
+CASES = {"quick": 32, "thorough": 1000}
 BUDGET = {"quick": 100, "thorough": 1500}
 CASE_TIMEOUT = 900
 FLOORS = {"quick": {"nontrivial": 14, "tags": {"two_default_instances": 14, "register_on_default": 10, "nondefault_instance": 7,
                                                "same_instance_kwargs_change": 14, "report_compact": 8, "report_detailed": 8},
                     "extras": {"diagnose_calls": 90, "leak_observable_calls": 45, "new_instances_checked": 65,
                                "results_with_findings": 80}, "max_skip_frac": 0.1},
-          "thorough": {"nontrivial": 700, "tags": {"two_default_instances": 700, "register_on_default": 500, "nondefault_instance": 300},
-                       "extras": {"diagnose_calls": 4500, "leak_observable_calls": 2200}, "max_skip_frac": 0.1}}
+          "thorough": {"nontrivial": 450, "tags": {"two_default_instances": 450, "register_on_default": 300, "nondefault_instance": 200},
+                       "extras": {"diagnose_calls": 3000, "leak_observable_calls": 1400}, "max_skip_frac": 0.1}}
 RULE = ("one case = one history (8-14 operations: new Diagnostic(add_default_functions), register_function of probe functions, "
         "diagnose_network(net, report_style, warnings_only, **random diagnostic kwargs)) on 2 generated networks, run in one "
         "fresh process; non-trivial = some call whose result would differ if earlier kwargs / registrations of any instance "
